@@ -22,7 +22,7 @@ ASSUMPTIONS = [
     "values beyond float32 range are outside the property's domain (generator stays within +-3e38)",
     "float64 -> float32 narrowing is round-to-nearest-even (numpy astype), used as the oracle's 'single-precision rounding'",
 ]
-BUDGET = {"quick": {"examples": 1500, "seconds": 60}, "thorough": {"examples": 4000, "seconds": 420}}
+BUDGET = {"quick": {"examples": 2500, "seconds": 60}, "thorough": {"examples": 4000, "seconds": 420}}
 
 value = st.one_of(
     st.floats(-1e4, 1e4, allow_nan=False, width=64),
